@@ -10,7 +10,7 @@
    (HuffmanTree::deserialize on a table that is not prefix free). *)
 From Coq Require Import Uint63.
 From ZV.Common Require Import Base Run.
-From ZV.C15 Require Import Model ModelBlob ModelIo2 ModelHuff ModelEntropy.
+From ZV.C15 Require Import Model ModelBlob ModelIo2 ModelHuff ModelEntropy ModelFiles.
 Open Scope N_scope.
 
 Inductive verdict : Type :=
@@ -18,7 +18,9 @@ Inductive verdict : Type :=
 | OkOrErr (v : list Z) (alloc : N)
 (* a value or an error, both fine, the value is not predicted (decoding with a tree whose shape depends
    on the HashMap order) *)
-| AnyValue.
+| AnyValue
+(* the model predicts a prefix of the observation (the output length, not its bytes) *)
+| PrefixOf (r : res (list Z)).
 
 (* contextual Huffman encoders parsed once per case file: (key, encoder) *)
 Definition cenv_t : Type := list (N * HC.cenc).
@@ -90,6 +92,12 @@ Definition run_model2 (env : cenv_t) (pid arg : N) (aux data : list N) : option 
            | Some e => Some (Exact (obsR (ctx_decode_o e data arg)))
            | None => None
            end
+  (* hex_decode(&str): aux = [1] when the bytes are valid UTF-8 (the harness refuses others itself) *)
+  | 82 => Some (Exact (match aux with 1 :: _ => hex_dec data | _ => Err 0 end))
+  | 140 => Some (Exact (mv_cell data))
+  | 141 => Some (Exact (ro_cell data))
+  | 142 => Some (Exact (dict_deser data))
+  | 143 => Some (PrefixOf (n <- slz_dec true data ;; ret [Z.of_N n]))
   (* Rans64Decoder<x1/x2/x4/x8>::decode, aux = the 256 normalised frequencies of the trained table *)
   | 120 | 121 | 122 | 123 =>
            Some (Exact (obsR (rans_decode (if pid =? 120 then 1 else if pid =? 121 then 2 else if pid =? 122 then 4 else 8) aux data arg)))
@@ -111,7 +119,7 @@ Definition run_model2 (env : cenv_t) (pid arg : N) (aux data : list N) : option 
   | _ => None
   end.
 
-Definition model2_ids : list N := [50; 90; 91; 100; 101; 102; 103; 104; 105; 108; 109; 110; 111; 120; 121; 122; 123; 130].
+Definition model2_ids : list N := [50; 90; 91; 100; 101; 102; 103; 104; 105; 108; 109; 110; 111; 120; 121; 122; 123; 130; 82; 140; 141; 142; 143].
 
 Fixpoint match_vals (m v : list Z) : bool :=
   match m, v with
@@ -129,6 +137,9 @@ Definition check_verdict (vd : verdict) (code : N) (vals : list Z) : bool :=
   | Exact (Ok v a) => if AS_LIMIT <=? a then code =? 2 else (code =? 0) && vals_ok v vals
   | OkOrErr v a => if AS_LIMIT <=? a then code =? 2 else (code =? 1) || ((code =? 0) && vals_ok v vals)
   | AnyValue => (code =? 0) || (code =? 1)
+  | PrefixOf Panic => code =? 2
+  | PrefixOf (Err a) => if AS_LIMIT <=? a then code =? 2 else code =? 1
+  | PrefixOf (Ok v a) => if AS_LIMIT <=? a then code =? 2 else (code =? 0) && prefix_eq v vals
   end.
 
 Definition xdata (bytes : list N) (pad : N * N) : list N :=
